@@ -220,6 +220,8 @@ impl Connection {
 
         debug!("TCP connection established");
         self.transport.connect(stream);
+        // a connection object that was connected before is still framing for distribution traffic
+        self.transport.set_frame_mode(FrameMode::Handshake);
 
         debug!("Starting handshake sequence");
         self.send_name().await?;
